@@ -8,7 +8,8 @@ C16 — executable model of boltons/tbutils.py:
     (linecache.checkcache + getline with the module's name and loader) and, spec side, the lookup of
     the `traceback` module (lazycache, checkcache, getline) over an abstract linecache / file / loader state
 
-The model follows the code as it is on the c16-work branch (after the `fix:` commits):
+The model follows the code as it is on the c16-work / r3-c16-work branches (after the `fix:` commits):
+  - TracebackInfo.get_formatted collapses runs of more than 3 identical entries (r3-c16-work 7fb4f9f),
   - the frame loop of from_string is guarded by `line_no < len(tb_lines)` (no IndexError),
   - ExceptionInfo.get_formatted prints the bare type when the message is empty,
   - the type name is the qualified name (this is outside the model: the harness passes the name).
@@ -379,8 +380,26 @@ def fromTraceback (tb : List Callpoint) (limit : Option Nat) : List Callpoint :=
 
 def headerNL : Str := header ++ ['\n']
 
+def sameSite (a b : Callpoint) : Bool := a.path = b.path && a.lineno = b.lineno && a.func = b.func
+
+/-- `_repeated_line_note(count)` / the traceback module's `[Previous line repeated N more times]` -/
+def repeatedMsg (n : Nat) : Str :=
+  "  [Previous line repeated ".toList ++ natStr n ++ (if n > 1 then " more times]\n".toList else " more time]\n".toList)
+
+def flushRepeat (count : Nat) : Str := if count > 3 then repeatedMsg (count - 3) else []
+
+/-- the loop of TracebackInfo.get_formatted (after the fix: runs of identical entries are collapsed):
+    `last` = site of the previous entry, `count` = length of the current run -/
+def bLoop : Option Callpoint → Nat → List Callpoint → Str
+  | _, count, [] => flushRepeat count
+  | last, count, f :: fs =>
+    if (match last with | none => true | some l => !sameSite l f) then
+      flushRepeat count ++ (tbFrameStr f ++ bLoop (some f) 1 fs)
+    else if count + 1 ≤ 3 then tbFrameStr f ++ bLoop last (count + 1) fs
+    else bLoop last (count + 1) fs
+
 /-- TracebackInfo.get_formatted -/
-def tbInfoFormat (frames : List Callpoint) : Str := headerNL ++ frames.flatMap tbFrameStr
+def tbInfoFormat (frames : List Callpoint) : Str := headerNL ++ bLoop none 0 frames
 
 /-- ExceptionInfo.get_formatted_exception_only (after the empty-message fix) -/
 def eiExcOnly (etype msg : Str) : Str := if msg = [] then etype else etype ++ (colonSp ++ msg)
@@ -400,13 +419,6 @@ def printException (frames : List Callpoint) (etype msg : Str) : Str :=
 /-- FrameSummary.line is the stripped line; printed when non-empty -/
 def stdFrameStr (c : Callpoint) : Str :=
   if strip c.line = [] then cpHead c else cpHead c ++ (ind4 ++ strip (strip c.line) ++ ['\n'])
-
-def sameSite (a b : Callpoint) : Bool := a.path = b.path && a.lineno = b.lineno && a.func = b.func
-
-def repeatedMsg (n : Nat) : Str :=
-  "  [Previous line repeated ".toList ++ natStr n ++ (if n > 1 then " more times]\n".toList else " more time]\n".toList)
-
-def flushRepeat (count : Nat) : Str := if count > 3 then repeatedMsg (count - 3) else []
 
 /-- StackSummary.format: `last` = previous entry, `count` = length of the current run -/
 def stdLoop : Option Callpoint → Nat → List Callpoint → Str
@@ -536,6 +548,60 @@ def resolveLimit (explicit : Option Nat) (sys : Option Int) : Option Nat :=
   match explicit with
   | some n => some n
   | none => sys.map Int.toNat
+
+/-! ## the exception's display name and sessions of several captures
+
+What the interpreter hands over about the exception's class: `__module__` (`none` when it is not a str) and
+`__qualname__`.  boltons computes the display name in two places (ExceptionInfo.from_exc_info and
+tbutils.format_exception_only, which print_exception uses); both read the two attributes afresh on every call. -/
+
+structure ExcType where
+  modname : Option Str
+  qualname : Str
+deriving DecidableEq, Repr
+
+/-- the modules whose classes are printed without prefix: `("__main__", "builtins")` -/
+def plainMods : List Str := ["__main__".toList, "builtins".toList]
+
+/-- ExceptionInfo.from_exc_info / tbutils.format_exception_only:
+    `if type_mod not in ("__main__", "builtins"): if not isinstance(type_mod, str): type_mod = '<unknown>'; ...` -/
+def typeStr (t : ExcType) : Str :=
+  match t.modname with
+  | some m => if plainMods.contains m then t.qualname else m ++ '.' :: t.qualname
+  | none => "<unknown>".toList ++ '.' :: t.qualname
+
+/-- traceback.TracebackException.format_exception_only (CPython 3.12): `stype = self.exc_type_qualname;
+    smod = self.exc_type_module; if smod not in ("__main__", "builtins"): if not isinstance(smod, str):
+    smod = "<unknown>"; stype = smod + '.' + stype` -/
+def stdTypeStr (t : ExcType) : Str :=
+  if t.modname = some "__main__".toList ∨ t.modname = some "builtins".toList then t.qualname
+  else (match t.modname with | some m => m | none => "<unknown>".toList) ++ ['.'] ++ t.qualname
+
+/-- tbutils.print_exception without traceback = tbutils.format_exception_only = `_format_final_exc_line` -/
+def printExcOnly (etype msg : Str) : Str :=
+  if msg = [] then etype ++ ['\n'] else etype ++ (colonSp ++ msg) ++ ['\n']
+
+/-- `_some_str(value)` (after fix 5cec9e6): `str(value)`, or the traceback module's placeholder when `str()` raises
+    (`none`) -/
+def someStr : Option Str → Str
+  | some s => s
+  | none => "<exception str() failed>".toList
+
+/-- traceback._safe_string(value, 'exception') -/
+def stdSafeStr (v : Option Str) : Str := v.getD "<exception str() failed>".toList
+
+/-- one capture of a session: the class and `str()` of the exception -/
+abbrev Capture := ExcType × Str
+
+/-- what boltons reports for each capture of a session, in order: ExceptionInfo.exc_type,
+    get_formatted_exception_only(), what print_exception writes.  Nothing is carried from one capture to the
+    next (the code keeps no state between captures; the correspondence check replays whole sessions). -/
+def sessionB (caps : List Capture) : List (Str × Str × Str) :=
+  caps.map fun c => (typeStr c.1, eiExcOnly (typeStr c.1) c.2, printExcOnly (typeStr c.1) c.2)
+
+/-- the traceback module on the same captures -/
+def sessionS (caps : List Capture) : List (Str × Str × Str) :=
+  caps.map fun c => (stdTypeStr c.1, stdExcOnly (stdTypeStr c.1) c.2, stdExcOnly (stdTypeStr c.1) c.2)
 
 /-- the frames of `ExceptionInfo.to_dict()`: file, line number, function, `str(_DeferredLine)` -/
 def dictFrames (frames : List Callpoint) : List (Str × Nat × Str × Str) :=
